@@ -62,14 +62,19 @@ def cases(tier):
     # concrete single-bit flips in the text of a node-ID-form EID (dtn://src/) of the primary block
     for ct in (1, 2):
         out.append(dict(kind='eidflip', crc=ct))
+    # corruption of the structural octets of a canonical block (array head, type, number, flags, CRC type): every XOR
+    # pattern within each of these octets (bursts of up to 8 bits), enumerated; the block data stays symbolic
+    for ct in ((1,) if tier == 'quick' else (1, 2)):
+        for octet in range(5):
+            out.append(dict(kind='structflip', crc=ct, octet=octet))
     return out
 
 
 def harness(case, tier):
     c = cur()
-    symcrc.EXACT[0] = (case['kind'] in ('flip', 'eidflip'))
+    symcrc.EXACT[0] = (case['kind'] in ('flip', 'eidflip', 'structflip'))
     try:
-        return {'out': h_out, 'fwd': h_fwd, 'gate': h_gate, 'flip': h_flip, 'eidflip': h_eidflip}[case['kind']](c, case, tier)
+        return {'out': h_out, 'fwd': h_fwd, 'gate': h_gate, 'flip': h_flip, 'eidflip': h_eidflip, 'structflip': h_structflip}[case['kind']](c, case, tier)
     finally:
         symcrc.EXACT[0] = False
 
@@ -201,6 +206,37 @@ def h_eidflip(c, case, tier):
     tag = 'crc%d,octet=%d,bit=%d' % (ct, pos, bit)
     c.prove(len(w.delivered) == 0 and len(w.agent._seen_bundle_ident) == 0, 'eid-text-flip-dropped[%s]' % tag,
             detail=dict(delivered=len(w.delivered), corrupted=bytes(bad_items[start:start + len(text)])))
+    return {'class': 'flip'}
+
+
+def h_structflip(c, case, tier):
+    ''' Every XOR pattern on one structural octet of a CRC-protected hop-count block that is followed by two more
+    blocks.  (The CRC gate works on the re-encoding of the decoded fields, so what matters is whether the damaged
+    octets still decode to something that re-encodes to the original.) '''
+    ct = case['crc']
+    w = BpWorld(node_id=NODE, ctr_cap=6)
+    w.add_rx_route(r'^dtn://node/.+', 'deliver')
+    w.add_rx_route(r'^dtn://far/.+', 'forward')
+    w.add_tx_route('.*', mtu=None)
+    dest = ['dtn://node/app', 'dtn://far/app'][c.choose(2, 'destination')]
+    pri = dict(flags=0, crc_type=ct, destination=dest, source='dtn://src/app', report_to='dtn:none',
+               create_ts=[2 ** 33, 5], lifetime=3600000)
+    hop = dict(type=10, num=2, flags=0, crc_type=ct, data=rfc9171.enc([30, 3]))
+    blocks = [hop, dict(type=200, num=3, flags=0, crc_type=0, data=b'\x01\x02\x03'),
+              dict(type=1, num=1, flags=0, crc_type=0, data=b'\x00\x01\x02\x03')]
+    good = bytes(rfc9171.sealed_bundle(pri, blocks))
+    hop_enc = bytes(rfc9171.enc(rfc9171.seal_canonical(hop)))
+    start = good.index(hop_enc)
+    pos = start + case['octet']
+    pat = 1 + c.choose(255, 'xor-pattern')
+    bad = bytearray(good)
+    bad[pos] ^= pat
+    w.recv(bytes(bad))
+    w.run_idle(20)
+    tag = 'crc%d,octet=%d,xor=%02x' % (ct, case['octet'], pat)
+    c.prove(len(w.delivered) == 0 and len(w.sent) == 0 and len(w.agent._seen_bundle_ident) == 0,
+            'structurally-corrupted-block-dropped[%s]' % tag,
+            detail=dict(delivered=len(w.delivered), sent=len(w.sent), was=good[pos], now=bad[pos]))
     return {'class': 'flip'}
 
 
